@@ -818,6 +818,15 @@ TOP:
 		fd.mu.Unlock()
 		switch {
 		case 0 < len(goField):
+			// A struct member takes no arguments. The ones the field declares
+			// are checked all the same, a required one has to be given and
+			// the ones given have to be declared and coercible.
+			if 0 < len(field.Args) || 0 < len(fd.args.list) {
+				if _, ea2 := root.formArgs(vars, field, fd); 0 < len(ea2) {
+					ea = append(ea, ea2...)
+					return
+				}
+			}
 			if ov.Kind() == reflect.Ptr {
 				ov = ov.Elem()
 			}
